@@ -515,3 +515,13 @@ def canon(f, e, depth=0, _seen=None):
             canon(f, e.body, depth + 1, _seen),
             canon(f, e.orelse, depth + 1, _seen)]))
     return type(e).__name__
+
+
+def pos_if(node):
+    """(test, body, orelse) of an if statement in positive form:
+    ``if not X: A else: B`` is read as ``if X: B else: A``."""
+    t = node.test
+    if isinstance(t, ast.UnaryOp) and isinstance(t.op, ast.Not) and \
+            node.orelse:
+        return t.operand, node.orelse, node.body
+    return t, node.body, node.orelse
